@@ -112,14 +112,19 @@ func checkProp[C any](t *testing.T, id, name string, n int, draw func(*rapid.T) 
 	t.Helper()
 	rec := stat.For(id)
 	n = (n + nshards - 1) / nshards
-	_ = flag.Set("rapid.checks", strconv.Itoa(n))
-	_ = flag.Set("rapid.seed", strconv.FormatUint(rapidSeed(name), 10))
-	_ = flag.Set("rapid.shrinktime", envStr("VERIF_SHRINKTIME", "20s"))
-	_ = flag.Set("rapid.nofailfile", "true")
+	setRapid(n, name)
 	rapid.Check(t, func(rt *rapid.T) {
 		c := draw(rt)
 		judge(rt, id, name, c, safely(run, c, rec))
 	})
+}
+
+// setRapid configures the next rapid.Check call: number of cases and PRNG value.
+func setRapid(n int, name string) {
+	_ = flag.Set("rapid.checks", strconv.Itoa(n))
+	_ = flag.Set("rapid.seed", strconv.FormatUint(rapidSeed(name), 10))
+	_ = flag.Set("rapid.shrinktime", envStr("VERIF_SHRINKTIME", "20s"))
+	_ = flag.Set("rapid.nofailfile", "true")
 }
 
 // pinned runs one fixed case through the same oracle (regression tier, bypasses rapid).
